@@ -784,10 +784,19 @@ EXPORT errno_t _wcsnorm_reorder_s_chk(wchar_t *restrict dest, rsize_t dmax,
                 seq_max = cc_pos + CC_SEQ_STEP; /* new size */
                 if (CC_SEQ_SIZE == cc_pos) {    /* seq_ary full */
                     seq_ext = (UNWIF_cc *)malloc(seq_max * sizeof(UNWIF_cc));
-                    memcpy(seq_ext, seq_ary, cc_pos * sizeof(UNWIF_cc));
+                    if (seq_ext)
+                        memcpy(seq_ext, seq_ary, cc_pos * sizeof(UNWIF_cc));
                 } else {
-                    seq_ext = (UNWIF_cc *)realloc(seq_ext,
-                                                  seq_max * sizeof(UNWIF_cc));
+                    UNWIF_cc *seq_new = (UNWIF_cc *)realloc(
+                        seq_ext, seq_max * sizeof(UNWIF_cc));
+                    if (!seq_new)
+                        free(seq_ext);
+                    seq_ext = seq_new;
+                }
+                if (unlikely(!seq_ext)) {
+                    handle_werror(orig_dest, orig_dmax,
+                                  "wcsnorm_reorder_s: out of memory", ESNOSPC);
+                    return RCNEGATE(ESNOSPC);
                 }
                 seq_ptr = seq_ext; /* use seq_ext from now */
             }
@@ -1007,10 +1016,22 @@ EXPORT errno_t _wcsnorm_compose_s_chk(wchar_t *restrict dest, rsize_t dmax,
                         if (CC_SEQ_SIZE == cc_pos) {    /* seq_ary full */
                             seq_ext =
                                 (uint32_t *)malloc(seq_max * sizeof(uint32_t));
-                            memcpy(seq_ext, seq_ary, cc_pos * sizeof(uint32_t));
+                            if (seq_ext)
+                                memcpy(seq_ext, seq_ary,
+                                       cc_pos * sizeof(uint32_t));
                         } else {
-                            seq_ext = (uint32_t *)realloc(
+                            uint32_t *seq_new = (uint32_t *)realloc(
                                 seq_ext, seq_max * sizeof(uint32_t));
+                            if (!seq_new)
+                                free(seq_ext);
+                            seq_ext = seq_new;
+                        }
+                        if (unlikely(!seq_ext)) {
+                            *lenp = 0;
+                            handle_werror(orig_dest, orig_dmax,
+                                          "wcsnorm_compose_s: out of memory",
+                                          ESNOSPC);
+                            return RCNEGATE(ESNOSPC);
                         }
                         seq_ptr = seq_ext; /* use seq_ext from now */
                     }
@@ -1141,6 +1162,12 @@ EXPORT errno_t _wcsnorm_s_chk(wchar_t *restrict dest, rsize_t dmax,
         tmp_ptr = tmp_stack;
     else
         tmp_ptr = tmp = (wchar_t *)malloc((len + 2) * sizeof(wchar_t));
+    if (unlikely(!tmp_ptr)) {
+        if (lenp)
+            *lenp = 0;
+        handle_werror(dest, dmax, "wcsnorm_s: out of memory", ESNOSPC);
+        return RCNEGATE(ESNOSPC);
+    }
 
     rc = _wcsnorm_reorder_s_chk(tmp_ptr, len + 2, dest, len, destbos);
     if (unlikely(rc)) {
